@@ -327,3 +327,13 @@ Proof.
     lia.
   - lia.
 Qed.
+
+Lemma weighted_median_T1_stuck c fw ws tot :
+  min_chunks c <= 1 -> min_chunk_size c <= 1 -> 2 <= length ws ->
+  (0 < fst (thresholds fw (tol_bits c) tot))%Z ->
+  forall fuel, weighted_median c fuel 1 fw ws tot = OutOfFuel.
+Proof.
+  intros Hc Hs Hl Hmn fuel. unfold weighted_median.
+  destruct (thresholds fw (tol_bits c) tot) as [mn mx]. cbn [fst] in Hmn.
+  apply median_loop_T1_stuck; auto.
+Qed.
